@@ -15,5 +15,19 @@ for p in "$here"/mutants/benign/*.diff; do
   out=$("$here/bin/verifcheck" -repo "$scratch/tree" -props all -tier quick -evidence "$scratch/ev" -known "$here/known_findings.txt" 2>&1); s=$?
   if [ $s -eq 0 ]; then echo "BENIGN-OK $(basename $p): all checks silent"; else echo "BENIGN-FALSE-ALARM $(basename $p):"; grep -E ": (violated|UNDECIDED) " <<<"$out" | head; rc=1; fi
 done
+# rename every local variable and parameter of the module (tools/renamelocals -all): no rule may depend on a local's name
+rm -rf "$scratch"; mkdir -p "$scratch/tree" "$scratch/ev"
+rsync -a --exclude .git "$repo"/ "$scratch/tree/"
+if (cd "$here/tools/renamelocals" && go1.26 build -o "$here/bin/renamelocals" .) >/dev/null 2>&1; then
+  files=$(cd "$scratch/tree" && find . -name '*.go' ! -name '*_test.go' ! -name '*.pb.go' ! -path './mocks/*' ! -path './test/*' ! -path './goaktpb/*' ! -path './internal/internalpb/*' | sed 's#^\./##')
+  if "$here/bin/renamelocals" "$scratch/tree" -all $files >/dev/null 2>&1 && (cd "$scratch/tree" && go1.26 build ./... >/dev/null 2>&1); then
+    out=$("$here/bin/verifcheck" -repo "$scratch/tree" -props all -tier quick -evidence "$scratch/ev" -known "$here/known_findings.txt" 2>&1); s=$?
+    if [ $s -eq 0 ]; then echo "BENIGN-OK rename-all-locals: all checks silent"; else echo "BENIGN-FALSE-ALARM rename-all-locals:"; grep -E ": (violated|UNDECIDED) " <<<"$out" | head; rc=1; fi
+  else
+    echo "BENIGN-SKIP rename-all-locals (renamed tree does not build)"
+  fi
+else
+  echo "BENIGN-SKIP rename-all-locals (tool does not build)"
+fi
 rm -rf "$scratch"
 exit $rc
